@@ -143,7 +143,7 @@ def _state_hash(world, sched):
 def oracle_child(sc, requests, alt_every=5):
     """Child O: history-free reference for exactly the observed (spec, path) pairs."""
     _set_environment(sc["knobs"])
-    texts = {aid: model.arg_text(ad) for aid, ad in sc["args"].items()}
+    texts = model.arg_texts(sc)
     out = {}
     alt = {}
     # References must not depend on one another, so any order is as good as any other; the
